@@ -10,7 +10,8 @@ match is `codeFmtOps` (`Pattern/Format.lean`; C10 proves the byte-level writers 
 Environment facts are INPUTS: what chrono answers for a date format (does `Display` succeed, and
 the rendered text), thread name and ids, process id, the MDC map, the build profile.
 
-Panic source (F4): `write!(w, "{}", now.format(fmt))` — std's `io::Write::write_fmt` panics when a
+Panic source (F4; since commit 73e36b9 a format with an `Item::Error` no longer reaches the
+encoder, `Chunk.lean: dateChunk`): `write!(w, "{}", now.format(fmt))` — std's `io::Write::write_fmt` panics when a
 `Display` implementation fails although the sink reported no I/O error, and chrono's
 `DelayedFormat` fails on a format string it cannot parse. Nothing of the date is written before.
 -/
@@ -27,8 +28,10 @@ structure Record where
   deriving Repr
 
 structure Env where
-  /-- does `write!("{}", now.format(fmt))` succeed (chrono accepts the strftime string) -/
-  strftimeOk : List Char → Bool → Bool
+  /-- does `write!("{}", now.format(fmt))` succeed. Modelling assumption (checked per case by the
+  driver on the harness' facts: Utc and Local rendering at encode time and the Utc trial rendering
+  at construction): chrono's verdict depends on the format only, not on zone or instant. -/
+  strftimeOk : List Char → Bool
   /-- the text chrono renders for (format, utc?) at the instant of the encode -/
   dateText : List Char → Bool → List Char
   threadName : Option (List Char)
@@ -57,7 +60,7 @@ def unknown3 : List Char := ['?', '?', '?']
 /-- `FormattedChunk::encode` for the variants without children: the text written -/
 def leafText (env : Env) (r : Record) : Leaf → Outcome Unit (List Char)
   | .time fmt utc =>
-    if env.strftimeOk fmt utc then .ok (env.dateText fmt utc)
+    if env.strftimeOk fmt then .ok (env.dateText fmt utc)
     else .panic "a formatting trait implementation returned an error when the underlying stream did not"
   | .level => .ok (levelName r.level).toList
   | .message => .ok r.message
@@ -170,13 +173,18 @@ def opsList (env : Env) (r : Record) : List Chunk → Out
   | c :: cs => opsChunk env r c ++ opsList env r cs
 end
 
+/-- the current code's build for an environment: the trial rendering at construction asks chrono
+the same question as the encode (`Env.strftimeOk`; chrono's answer depends on the format only) -/
+def Build.current (env : Env) : Build := { renderOk := env.strftimeOk }
+
 /-- `PatternEncoder::new` -/
-def newEncoder (cc : CharClass) (P : Profile) (pattern : List Char) : Outcome Unit (List Chunk) :=
-  omap compileL (parse cc P pattern)
+def newEncoder (cc : CharClass) (P : Profile) (B : Build) (pattern : List Char) : Outcome Unit (List Chunk) :=
+  omap (compileL B) (parse cc P pattern)
 
 /-- `PatternEncoder::new(pattern).encode(w, record)` -/
-def run (cc : CharClass) (P : Profile) (env : Env) (r : Record) (pattern : List Char) : Outcome Unit Out :=
-  match newEncoder cc P pattern with
+def run (cc : CharClass) (P : Profile) (B : Build) (env : Env) (r : Record) (pattern : List Char) :
+    Outcome Unit Out :=
+  match newEncoder cc P B pattern with
   | .ok cs => encList env r cs
   | .err e => .err e
   | .panic w => .panic w
